@@ -875,7 +875,7 @@ func TestVerif_C01(t *testing.T) {
 	shapes := c01Shapes()
 	nShapes := len(shapes)
 	thorough := verifThorough()
-	res := newVerifResult(fmt.Sprintf("every list of allowed_auth_backends_for_certs (512 subsets of the nine method names + 16 lists with other order, duplicates, unknown and near-miss strings) x %d credential shapes x {ssh, x509, x509-kubernetes, bogus} x {POST, GET, PUT} x {unsealed, sealed}; quick: all lists x all shapes at (ssh, POST, unsealed) plus all shapes under 8 lists for the other 23 combinations; thorough: the full product; non-trivial = the request carried a credential the property accepts; distinct by (list, shape, type, method, sealed, outcome)", nShapes))
+	res := newVerifResult(fmt.Sprintf("every list of allowed_auth_backends_for_certs (512 subsets of the nine method names + 16 lists with other order, duplicates, unknown and near-miss strings) x %d credential shapes x {ssh, x509, x509-kubernetes, bogus} x {POST, GET, PUT} x {unsealed, sealed}, plus the signer-state block {main+Ed25519 signer, Ed25519 signer only} x {ssh on an ECDSA user key, ssh on an ssh-ed25519 user key, x509} and the ssh-ed25519 user key on {main signer only, no signer}; quick: all lists x all shapes at (ssh, POST, unsealed) plus all shapes under 8 lists for the other 23 combinations plus the signer-state block under 3 lists; thorough: the full product and the signer-state block under every list; non-trivial = the request carried a credential the property accepts; distinct by (list, shape, type, method, sealed, outcome)", nShapes))
 	deniedKey, err := ecdsa.GenerateKey(elliptic.P256(), rand.Reader)
 	c01Must(err)
 	deniedFP, err := getKeyFingerprint(&deniedKey.PublicKey)
